@@ -11,6 +11,7 @@ C04.flush     receive enqueues before testing the state; both flush sites drain 
 C04.attempt   resources captured by a per-attempt worker are per-attempt, or the old worker is cancelled on disconnect
 """
 import ast
+import os
 
 from ..absint import Interp, Obj, _Raise, C_NONE, show, flat_effects, enumerate_cells, Budget
 from ..cfg import CFG, fmt_path, walk_no_nested
@@ -630,6 +631,74 @@ def rule_flush(ctx):
         ctx.check("C04.flush", not lost and res2 == "done", wf, "a frame arrives while a flush is finishing",
                   "the running flusher has seen the queue empty and is about to finish when another thread enqueues a frame and flushes: that flush returns at once (%s) without waiting for the lock, the frame stays in the queue until the next one arrives - frames are held back" % ("a flush is marked running" if lost else res2),
                   "the arriving thread %s" % ("waits for the lock and drains afterwards" if st2["b"] == "blocked" else "drains the queue itself"))
+    # the protocol's state callback fires from inside receive() on the thread that is flushing (a frame arrived right
+    # when the handshake completed): the nested flush must neither wait for the lock its own thread holds nor take the
+    # segments the running loop is about to read - receive() reads the queue after the callback has returned and waits
+    # for ever when the nested call has emptied it
+    st3 = {"queued": 2, "n": 0, "fired": False, "starved": False, "selfblock": False}
+    box3 = {}
+
+    def receive3(itp, recv, a, k, env, d, e):
+        if not st3["fired"]:
+            st3["fired"] = True
+            itp.method_call(box3["layer"], roles["state_cb"], [_const_expr(itp, cls, "WANoiseProtocol.STATE_TRANSPORT")], {}, {"@module": cls.module, "@owner": cls}, d + 1, None)
+        if st3["queued"] <= 0:
+            st3["starved"] = True
+            raise _Raise(("ext", "BlockedForEver", []), "receive() waits on an empty queue")
+        st3["queued"] -= 1
+        st3["n"] += 1
+        return ("ext", "FRAME%d" % st3["n"], [])
+
+    def reentrant(lockv):
+        return lockv is not None and lockv[0] == "ext" and "RLock" in lockv[1]
+
+    def acquire3(itp, recv, a, k, env, d, e):
+        blocking = not ((a and a[0] == ("c", False)) or k.get("blocking") == ("c", False) or len(a) > 1 or "timeout" in k)
+        # (the acquisition being made is already on record when this hook runs)
+        if recv is box3.get("lock") and blocking and not reentrant(recv) and _c11.lock_balance(list(flat_effects(itp.effects)), recv) > 1:
+            st3["selfblock"] = True
+            raise _Raise(("ext", "BlockedForEver", []), "the thread waits for a lock it holds itself")
+        return None
+
+    def enter3(itp, v):
+        if v is box3.get("lock") and not reentrant(v) and _c11.lock_balance(list(flat_effects(itp.effects)), v) > 0:
+            st3["selfblock"] = True
+            raise _Raise(("ext", "BlockedForEver", []), "the thread waits for a lock it holds itself")
+    hooks3 = {"ext:inq.qsize": lambda itp, recv, a, k, env, d, e: ("c", st3["queued"]), "ext:inq.empty": lambda itp, recv, a, k, env, d, e: ("c", st3["queued"] == 0),
+              "method:receive": receive3, "ext:*.acquire": acquire3, "with:enter": enter3}
+    it3, layer3, _c3 = _noise_layer(repo, roles, extra_hooks=hooks3, known_rs=("ext", "KEY_NEW", []))
+    del it3.hooks["fn:" + roles["flush"]]
+    it3.loop_unroll = 6
+    box3["layer"] = layer3
+    box3["lock"] = layer3[1].fields.get(roles["lock"])
+    ups3 = []
+    up03 = it3.hooks["method:toUpper"]
+
+    def up3(itp, recv, a, k, env, d, e):
+        ups3.append(a[0] if a else None)
+        return up03(itp, recv, a, k, env, d, e)
+    it3.hooks["method:toUpper"] = up3
+    res3 = None
+    try:
+        it3.method_call(layer3, roles["flush"], [], {}, {"@module": cls.module, "@owner": cls}, 0, None)
+        res3 = "done"
+    except _Raise as r:
+        res3 = "raised " + str(r.text)[:70]
+    except NeedAtom as x:
+        res3 = "undecided %s" % (x.atom,)
+    if res3.startswith("undecided") or not st3["fired"]:
+        ctx.undecided("C04.flush", wf, "the state callback fires inside receive() on the flushing thread", "scenario not executed (%s)" % res3)
+    else:
+        why = None
+        if st3["selfblock"]:
+            why = "the nested flush waits for the flush lock, which its own thread holds: the network thread blocks on itself for ever"
+        elif st3["starved"]:
+            why = "the nested flush runs a drain loop of its own and takes the segment the running receive() was about to read: that receive() then waits on an empty queue for ever, on the network thread - no later frame is read (%d of 2 frames were delivered)" % len(ups3)
+        elif res3 != "done":
+            why = res3
+        elif ups3 != [("ext", "FRAME1", []), ("ext", "FRAME2", [])] or st3["queued"] != 0:
+            why = "the two queued frames are delivered as %s, %d left queued" % ([show(v)[:10] if v else None for v in ups3], st3["queued"])
+        ctx.check("C04.flush", why is None, wf, "the state callback fires inside receive() on the flushing thread", why or "", "the nested call leaves the drain to the running loop: both frames delivered once, in order")
     # both flush sites use the same function
     sites = []
     for name, f in cls.methods.items():
